@@ -146,6 +146,8 @@ class Device:
         logix.setup_reset()
         self.saved_max = logix.Logix.MAX_BYTES
         logix.Logix.MAX_BYTES = case["budget"]
+        if case.get("budget_on") == "instance":
+            logix.Logix.MAX_BYTES = self.saved_max      # the class keeps its default: the serving object alone is scaled down
         if case.get("via_main"):
             tags = self.tags_via_main(case)
         else:
@@ -169,6 +171,8 @@ class Device:
                 dict.__setitem__(tags, t["name"], e)
         logix.setup(tags=tags)
         self.router = device.lookup(2, 1)
+        if case.get("budget_on") == "instance":
+            self.router.MAX_BYTES = case["budget"]
         # actual addresses, as allocated by the real setup_tag
         self.addrs = {}
         for t in case["tags"]:
@@ -237,6 +241,12 @@ class Device:
                 off = r.get("off") if r["op"] in ("rf", "wf") else None
                 if r["op"] in ("rf", "rt"):
                     req = _client.client.read(None, text, elements=r["n"], offset=off, send=False)
+                elif r["op"] == "wf" and idx is not None and CODE2NAME.get(r["ty"]) in ("SINT", "INT", "DINT", "LINT", "USINT", "UINT", "UDINT", "ULINT"):
+                    # ... spelled as an operation text, as cpppo's command line and `parse_operations` take it
+                    spelled = "%s+%d=(%s)%s" % (text, off, CODE2NAME[r["ty"]], ",".join(str(pyval(v)) for v in r["vals"]))
+                    op = list(_client.parse_operations([spelled]))[0]
+                    req = _client.client.write(None, send=False, **{k: v for k, v in op.items()
+                                                                    if k in ("path", "data", "elements", "offset", "tag_type")})
                 else:
                     req = _client.client.write(None, text, data=[pyval(v) for v in r["vals"]], elements=r["n"], offset=off,
                                                tag_type=r["ty"], send=False)
